@@ -30,7 +30,7 @@ fn s(x: &str) -> String {
 // ---------------------------------------------------------------------------------------------
 fn space(max_entries: usize, links: LinkDomain) -> TreeSpace {
     let extra = if links == LinkDomain::Any { vec![s("/zz")] } else { vec![] };
-    TreeSpace { names: vec!["a", "b"], max_depth: 2, max_entries, contents: vec![b"".to_vec(), b"x".to_vec()], links, extra_targets: extra, target_depth: 2 }
+    TreeSpace { names: vec!["a", "ab"], max_depth: 2, max_entries, contents: vec![b"".to_vec(), b"x".to_vec()], links, extra_targets: extra, target_depth: 2 }
 }
 
 /// give every entry a mode (and a few an owner) that tells the paths apart, so that "same mode"
@@ -40,10 +40,10 @@ fn decorate(t: &Tree) -> Tree {
     for (k, n) in &t.nodes {
         let (dm, fm, uid, gid) = match k.as_str() {
             "/a" => (0o750, 0o640, DEF_ID, DEF_ID),
-            "/b" => (0o711, 0o604, DEF_ID, DEF_ID),
+            "/ab" => (0o711, 0o604, DEF_ID, DEF_ID),
             "/a/a" => (0o700, 0o600, 7, 8),
-            "/a/b" => (DEF_DIR, DEF_FILE, DEF_ID, DEF_ID),
-            "/b/a" => (0o751, 0o664, DEF_ID, DEF_ID),
+            "/a/ab" => (DEF_DIR, DEF_FILE, DEF_ID, DEF_ID),
+            "/ab/a" => (0o751, 0o664, DEF_ID, DEF_ID),
             _ => (0o770, 0o660, DEF_ID, 9),
         };
         let mut n2 = n.clone();
@@ -165,7 +165,7 @@ impl Call {
 }
 
 pub fn all_calls() -> Vec<Call> {
-    let ns = namespace(&["a", "b"], 2);
+    let ns = namespace(&["a", "ab"], 2); // one name is a textual prefix of the other on purpose
     let mut dsts = vec![s("/")];
     dsts.extend(ns.iter().cloned());
     let mut out = vec![];
